@@ -72,7 +72,10 @@ impl Event {
     }
 }
 
+#[cfg(not(miri))]
 pub const MAX_EVENTS: usize = 1 << 16;
+#[cfg(miri)]
+pub const MAX_EVENTS: usize = 16;
 static mut EVENTS: [Event; MAX_EVENTS] = [Event::empty(); MAX_EVENTS];
 static NEVENTS: AtomicUsize = AtomicUsize::new(0);
 static OVERFLOW: AtomicBool = AtomicBool::new(false);
